@@ -16,10 +16,138 @@ def _src(ex, gen, st):
     return v
 
 
+def comp_ordinal(ex, node):
+    """ordinal of a comprehension among the list/generator/set/dict comprehensions of the enclosing function (source order)"""
+    fn = ex.fn_stack[-1][0]
+    k = 0
+    for n in ast.walk(fn):
+        if isinstance(n, (ast.ListComp, ast.GeneratorExp, ast.SetComp, ast.DictComp)):
+            pass
+    # ast.walk is breadth-first; use a deterministic source-position order instead
+    comps = [n for n in ast.walk(fn) if isinstance(n, (ast.ListComp, ast.GeneratorExp, ast.SetComp, ast.DictComp))]
+    comps.sort(key=lambda n: (n.lineno, n.col_offset))
+    for i, n in enumerate(comps):
+        if n is node:
+            return i
+    return None
+
+
+def summarised(ex, node, st, kind):
+    """Comprehension with a contract-declared summary `comp_<k>(locals...)` = H(src, len(src), extra...): H is a recursive
+    spec function over (sequence, n).  Python's comprehension IS the left fold that appends each source element's
+    contribution, so it equals H(src, len(src)) provided H(src,0) is empty and, for every 1 <= n <= len(src),
+    H(src,n) == H(src,n-1) ++ contribution(src[n-1])  -- two obligations per site (comp-base / comp-step), where the
+    contribution is obtained by symbolically executing the comprehension's inner part on an arbitrary element."""
+    from .loops import eval_clause_value
+    from .calls import apply_spec
+    frame = ex.fn_stack[-1]
+    info = frame[1] if len(frame) > 1 else None
+    if info is None or ex.spec_mode:
+        return None
+    k = comp_ordinal(ex, node)
+    cl = info.clause(f"comp_{k}") if k is not None else None
+    if cl is None:
+        return None
+    ret = cl.body[-1]
+    if not (isinstance(ret, ast.Return) and isinstance(ret.value, ast.Call) and isinstance(ret.value.func, ast.Name)
+            and ret.value.func.id in ex.ctx.registry.specs):
+        raise OutOfReach(f"comp_{k}: summary must be `return H(src, len(src), ...)` with H a spec function")
+    H = ex.ctx.registry.specs[ret.value.func.id]
+    gens = node.generators
+    g0 = gens[0]
+    src = _src(ex, g0, st)
+    if isinstance(src, (VTup, VPyList)):
+        return None  # concrete: unrolled by the ordinary path
+    if not isinstance(src, VSeq):
+        raise OutOfReach(f"comp_{k}: source is not a sequence")
+    # evaluate the summary's arguments in the current state
+    argvals = []
+    env_state = State(dict(st.env), list(st.pc), st.facts)
+    from .core import Exec
+    sub = Exec(ex.ctx, info.file, contract=None, spec_mode=True)
+    sub.fn_stack = [(cl, None)]
+    sub.fallback_relpath = info.relpath
+    cenv = {}
+    for a in cl.args.args:
+        if a.arg not in st.env:
+            raise OutOfReach(f"comp_{k}: no value for {a.arg}")
+        cenv[a.arg] = st.env[a.arg]
+    cstate = State(cenv, st.pc, st.facts)  # shares the path condition: callee postconditions assumed here stay visible
+    for stmt in cl.body[:-1]:
+        outs = sub.exec_block([stmt], cstate)
+        if len(outs) != 1 or outs[0][0] != "fall":
+            raise OutOfReach(f"comp_{k}: summary prelude must be straight-line")
+    for a in ret.value.args:
+        argvals.append(sub.eval(a, cstate))
+    if len(argvals) < 2 or not isinstance(argvals[0], VSeq):
+        raise OutOfReach(f"comp_{k}: summary arguments")
+    where = f"{ex.relpath}:{node.lineno}"
+    L = z3.Length(src.term)
+    ex.ctx.oblige(st, z3.And(argvals[0].term == src.term, argvals[1].term == L), f"comp-summary-args[{k}]", where, ex.guards)
+    extra = argvals[2:]
+    n = z3.Int(S.fresh_name("cn"))
+    nn = VNum(n, "int")
+    h_n = apply_spec(ex, H, [src, nn] + extra, st)
+    h_p = apply_spec(ex, H, [src, VNum(n - 1, "int")] + extra, st)
+    h_0 = apply_spec(ex, H, [src, VNum(z3.IntVal(0), "int")] + extra, st)
+    h_L = apply_spec(ex, H, [src, VNum(L, "int")] + extra, st)
+    # contribution of an arbitrary element
+    el = S.wrap(src.elem, src.term[n - 1])
+    s2 = State(dict(st.env), st.pc + [n >= 1, n <= L], st.facts)
+    ex.store(g0.target, el, s2)
+    saved = list(ex.guards)
+    ex.guards = ex.guards + [n >= 1, n <= L]
+    try:
+        conds = [ex.truth(ex.eval(c, s2)) for c in g0.ifs]
+        if len(gens) == 1:
+            if kind == "dict":
+                raise OutOfReach("dict comprehension summary")
+            body = ex.eval(node.elt, s2)
+            es = H.ret.elem if isinstance(H.ret, S.Seq) else None
+            if kind in ("list", "gen") and isinstance(H.ret, S.Seq):
+                unit = z3.Unit(ex.term_of(body, H.ret.elem))
+                contrib = z3.If(z3.And(*conds), unit, z3.Empty(H.ret.z3())) if conds else unit
+                step = h_n.term == z3.Concat(h_p.term, contrib)
+                base = h_0.term == z3.Empty(H.ret.z3())
+            else:
+                raise OutOfReach(f"comp_{k}: summary result sort {H.ret}")
+        elif len(gens) == 2:
+            g1 = gens[1]
+            inner = ex.eval(g1.iter, s2)
+            if isinstance(inner, VOpt):
+                ex.need(s2, z3.Not(inner.isnone), "TypeError", g1.iter, "iteration over None")
+                inner = inner.val
+            inner = ex.as_seq(inner, H.ret.elem) if not isinstance(inner, VSeq) else inner
+            if not (isinstance(node.elt, ast.Name) and isinstance(g1.target, ast.Name) and node.elt.id == g1.target.id):
+                raise OutOfReach(f"comp_{k}: inner generator must yield its own variable")
+            # inner conditions may not depend on the inner variable
+            inner_names = {g1.target.id}
+            for c in g1.ifs:
+                if any(isinstance(x, ast.Name) and x.id in inner_names for x in ast.walk(c)):
+                    raise OutOfReach(f"comp_{k}: condition on the inner variable")
+            conds += [ex.truth(ex.eval(c, s2)) for c in g1.ifs]
+            contrib = z3.If(z3.And(*conds), inner.term, z3.Empty(H.ret.z3())) if conds else inner.term
+            step = h_n.term == z3.Concat(h_p.term, contrib)
+            base = h_0.term == z3.Empty(H.ret.z3())
+        else:
+            raise OutOfReach(f"comp_{k}: more than two generators")
+    finally:
+        ex.guards = saved
+    ex.ctx.oblige(st, base, f"comp-base[{k}]", where, ex.guards)
+    ex.ctx.oblige(s2, step, f"comp-step[{k}]", where, ex.guards)
+    res = h_L
+    if kind != "gen" and isinstance(res, VSeq):
+        res = VSeq(res.term, res.elem, "list")
+    return res
+
+
 def do_comp(ex, node, st, kind):
     gens = node.generators
     if any(g.is_async for g in gens):
         raise OutOfReach("async comprehension")
+    r = summarised(ex, node, st, kind)
+    if r is not None:
+        return r
     # ---- flatten: [c for s in R for c in s]
     if kind in ("list", "gen") and len(gens) == 2 and not gens[0].ifs and not gens[1].ifs \
             and isinstance(node.elt, ast.Name) and isinstance(gens[1].target, ast.Name) and node.elt.id == gens[1].target.id \
